@@ -41,4 +41,21 @@ def attached (trunking erdma tags : Bool) (preferred : Option Nat) (tys : List T
   else
     (List.range tys.length).map fun i => (decide (preferred = some i), false)
 
+/-! ### creating an interface when every candidate vSwitch is exhausted
+
+The factory asks the vSwitch pool for a candidate, sends the create request there, and when the cloud refuses it as exhausted it
+reports that to the pool (`Block`) and tries again; the pool does not offer a blocked vSwitch while its cache entry lives.  With `n`
+candidates that all turn out exhausted, an order names each of those still open once, in the configured order, and then fails. -/
+
+/-- one order: the candidates still open are tried in turn (and blocked); returns what was tried and what is blocked afterwards -/
+def exhaustOrder (n : Nat) (blocked : List Nat) : List Nat × List Nat :=
+  let tried := (List.range n).filter fun i => !blocked.contains i
+  (tried, blocked ++ tried)
+
+/-- two orders in a row: the create requests of each -/
+def exhaustTwice (n : Nat) : List Nat × List Nat :=
+  let (t1, b1) := exhaustOrder n []
+  let (t2, _) := exhaustOrder n b1
+  (t1, t2)
+
 end Terway.Factory
